@@ -384,7 +384,7 @@ def run(ctx):
             template = [('expr', fam[0]), ('expr', fam[1]), ('or', 0, 1), ('not', 0), ('and', 2, 3), ('or', 2, 3), ('and', 3, 1), ('and', 0, 1), ('and', 1, 0),
                         ('expr', "python_full_version >= '3.8'"), ('cplxpv', 9, 'U', ['E', S('3.11')]), ('cplxpv', 9, ['I', S('3.9')], ['I', S('3.12')]),
                         ('not', 9), ('cplxpv', 12, ['E', S('3.7')], ['E', S('3.8')]), ('simppv', 10, ['I', S('3.8')], 'U'), ('and', 10, 4),
-                        ('expr', "extra == 'a'"), ('expr', "extra == 'b'"), ('and', 16, 17), ('simpx', 18, ['a', 'b']), ('or', 18, 2), ('simpx', 20, ['a'])]
+                        ('expr', "extra == 'a'"), ('expr', "extra == 'b'"), ('and', 16, 17), ('simpx', 18, ['a', 'b']), ('or', 18, 2), ('simpx', 20, ['a']), ('simpx', 18, ['a']), ('simpx', 18, ['b']), ('simpx', 18, ['a', 'b']), ('simpx', 20, ['b'])]
         for st in template:
             if st[0] == 'expr':
                 a = sess.ask(['expr', S(st[1])])
@@ -469,7 +469,7 @@ def run(ctx):
             envs.append([rels, ss, [S(e) for e in exn]])
             impl_evals.append((env, ex, row))
         # the order of register pairs (the same band of pairs the driver compares with m_cmp_i)
-        impl_cmps = {}
+        impl_cmps, impl_disj = {}, {}
         nreg = len(regs)
         for i in range(nreg):
             for d in range(4):
@@ -477,6 +477,12 @@ def run(ctx):
                 rr = sess.ask(['rel', str(regs[i]), str(regs[j])])
                 if rr[0] == 'ok':
                     impl_cmps[(i, j)] = rr[2]
+                # is_disjoint of the pair, then of the same nodes with the other polarity, in this order (a verdict remembered per pair of nodes would show)
+                d1 = sess.ask(['disjoint', str(regs[i]), str(regs[j])])
+                nj, _ = sess.op('not', regs[j])
+                d2 = sess.ask(['disjoint', str(regs[i]), str(nj)]) if nj is not None else ['?']
+                if d1[0] == 'ok' and d2[0] == 'ok':
+                    impl_disj[(i, j)] = (d1[1], d2[1])
         sess.close()
         out = fw.batch(build.DRIVER, [['runi', pv, pfv, msteps, envs]])[0]
         if out[0] == 'ok' and envs and isinstance(out[-1], list) and out[-1] and out[-1][0] == 'evals':
@@ -494,6 +500,10 @@ def run(ctx):
                     i, j, mv = int(it[0]), int(it[1]), it[2]
                     if (i, j) in impl_cmps:
                         ctx.corr_cases += 1
+                        if (i, j) in impl_disj and len(it) >= 5 and (it[3], it[4]) != impl_disj[(i, j)]:
+                            ctx.disagreement('disjoint_i ~ MarkerTree::is_disjoint on the registers of steps %d and %d (the pair, then with the second negated)' % (i, j),
+                                             {'program': [dump(m)[:160] for m in msteps[:max(i, j) + 1]]}, dump([it[3], it[4]]), dump(list(impl_disj[(i, j)])))
+                            break
                         if impl_cmps[(i, j)] != mv:
                             ctx.disagreement('m_cmp_i ~ MarkerTree::cmp on the registers of steps %d and %d' % (i, j),
                                              {'program': [dump(m)[:160] for m in msteps[:max(i, j) + 1]]}, mv, impl_cmps[(i, j)])
